@@ -8,13 +8,13 @@ variable {α : Type} [Num α]
 
 theorem storm_is_maximal_heavy_run (pick : List Nat → Nat) (s j : α) (dt : Int) (zeta rain : List α)
     (p : (Nat × Nat) × (Nat × Nat)) (hp : p ∈ (classifyIdx pick s j dt zeta rain).pairs) :
-    p.1 ∈ trueRuns (heavy s rain) := by
-  sorry
+    p.1 ∈ trueRuns (heavy s rain) :=
+  (pairing_overlaps_idx pick s j dt zeta rain p hp).1
 
 theorem rise_is_maximal_jump_run (pick : List Nat → Nat) (s j : α) (dt : Int) (zeta rain : List α)
     (p : (Nat × Nat) × (Nat × Nat)) (hp : p ∈ (classifyIdx pick s j dt zeta rain).pairs) :
-    p.2 ∈ trueRuns (jumps j dt zeta) := by
-  sorry
+    p.2 ∈ trueRuns (jumps j dt zeta) :=
+  (pairing_overlaps_idx pick s j dt zeta rain p hp).2.1
 
 /-- Every recorded storm/rise pair comes from one gap-free stretch `l`: with `es`, `zs`, `rs` the
     epochs, levels and rain of that stretch alone, the storm is `(es[a], es[b-1] + step)` for a
@@ -28,7 +28,9 @@ theorem no_interval_crosses_gap (pick : List Nat → Nat) (s j : α) (db : Loade
       (c', d) ∈ trueRuns (jumps j db.step ((samplesOf db l).map (·.2.1))) ∧
       p = ((((samplesOf db l).map (·.1)).getD a 0, ((samplesOf db l).map (·.1)).getD (b - 1) 0 + db.step),
            (((samplesOf db l).map (·.1)).getD c' 0, ((samplesOf db l).map (·.1)).getD d 0)) := by
-  sorry
+  obtain ⟨l, hl, q, hq, rfl⟩ := (mem_pairs_of_ok pick s j db c hc p).1 hp
+  obtain ⟨h1, h2, _⟩ := idxPairs_sound pick _ _ q hq
+  exact ⟨l, hl, q.1.1, q.1.2, q.2.1, q.2.2, h1, h2, rfl⟩
 
 /-- On a uniform grid the view's join condition selects exactly the steps that start inside
     `[start, thru)`: the depth is intensity × step length summed over the storm's own steps. -/
@@ -36,7 +38,28 @@ theorem rain_depth_steps (db : Loaded α) (storm : Int × Int) (dt : Int) (hdt :
     (hrows : ∀ r ∈ db.rain, r.2.1 = r.1 + dt) (hal : ∀ r ∈ db.rain, dt ∣ (storm.2 - r.1)) :
     totalRainDepth db storm =
       Num.sum ((db.rain.filter (fun r => decide (storm.1 ≤ r.1) && decide (r.1 < storm.2))).map
-        (fun r => Num.div (Num.mul r.2.2 (Num.ofInt dt)) (Num.ofInt 3600))) := by
-  sorry
+        (fun r => Num.div (Num.mul r.2.2 (Num.ofInt dt)) (Num.ofInt 3600))) :=
+  totalRainDepth_steps db storm dt hdt hrows hal
+
+/-! ### Non-vacuity (dataset `Example.db`, kernel evaluation at `Rat`) -/
+namespace Example
+
+/-- the runs of the two stretches, and the rows recorded from them -/
+example : trueRuns (heavy s ((samplesOf db 0).map (·.2.2))) = [(1, 3)] ∧
+    trueRuns (jumps j db.step ((samplesOf db 0).map (·.2.1))) = [(1, 2)] ∧
+    trueRuns (heavy s ((samplesOf db 1).map (·.2.2))) = [(0, 2)] ∧
+    trueRuns (jumps j db.step ((samplesOf db 1).map (·.2.1))) = [(1, 2)] := by decide +kernel
+example : labelsOf db = [0, 1] ∧ (samplesOf db 0).map (·.1) = [0, 3600, 7200, 10800, 14400, 18000] ∧
+    (samplesOf db 1).map (·.1) = [25200, 28800, 32400] := by decide +kernel
+example : (classifyAll pickFirst s j db).toOption.map (·.pairs) =
+    some [((3600, 10800), (3600, 7200)), ((25200, 32400), (28800, 32400))] := by decide +kernel
+
+/-- the hypotheses of `rain_depth_steps` hold for the example's rain table and its first storm;
+    the depth is 5 mm/h × 1 h + 5 mm/h × 1 h -/
+example : (0 : Int) < 3600 ∧ (∀ r ∈ db.rain, r.2.1 = r.1 + 3600) ∧
+    (∀ r ∈ db.rain, (3600 : Int) ∣ ((3600, 10800) : Int × Int).2 - r.1) := by decide +kernel
+example : totalRainDepth db (3600, 10800) = 10 := by decide +kernel
+
+end Example
 
 end Spowtd
